@@ -10,14 +10,15 @@ CONSTANTS InitTensors,   \* sequence of tensors initially in the pool (slots 1..
 Slots == 1..NSlots
 Null == [legs |-> <<>>, qtotal |-> QZero, labels |-> <<>>, val |-> [shape |-> <<>>, val |-> <<>>]]
 
-VARIABLES pool, used, shared, pending, last, nops, hist
-vars == <<pool, used, shared, pending, last, nops, hist>>
-AbsView == <<pool, used, shared, pending, nops>>
+VARIABLES pool, used, shared, cls, pending, last, nops, hist
+vars == <<pool, used, shared, cls, pending, last, nops, hist>>
+AbsView == <<pool, used, shared, cls, pending, nops>>
 Nil == [op |-> "nil"]
 
 Init == /\ pool = [s \in Slots |-> IF s <= Len(InitTensors) THEN InitTensors[s] ELSE Null]
         /\ used = 1..Len(InitTensors)
         /\ shared = {}
+        /\ cls = "none"
         /\ pending = Nil
         /\ last = [op |-> "init", out |-> 0, inplace |-> FALSE]
         /\ nops = 0
@@ -112,55 +113,108 @@ Gauge(s, x, nq, flip) ==
 SetEntry(s, idx, z) ==
     /\ CanSetEntry(T(s), idx)
     /\ Update(s, OpSetEntry(T(s), idx, z), [op |-> "setitem", a |-> s, idx |-> idx, z |-> z])
+Combine2(s, g1, g2, f1, f2) ==
+    LET groups == <<g1, g2>>
+        qcs == <<IF f1 THEN -T(s).legs[g1[1]].qconj ELSE T(s).legs[g1[1]].qconj,
+                 IF f2 THEN -T(s).legs[g2[1]].qconj ELSE T(s).legs[g2[1]].qconj>>
+    IN Store(OpCombineG(T(s), groups, qcs, DefaultNewAxes(T(s), groups), TRUE, TRUE),
+             [op |-> "combine_legs2", a |-> s, groups |-> groups, qconj |-> qcs])
+GetItem(s, spec) == Store(OpGetItem(T(s), spec), [op |-> "getitem", a |-> s, spec |-> spec])
+ScaleItems(s, spec, z) == Update(s, OpScaleItems(T(s), spec, z), [op |-> "setitem_scaled", a |-> s, spec |-> spec, z |-> z])
+SwapAxes(s, x, y) == Update(s, OpTranspose(T(s), [a \in 1..R(s) |-> IF a = x THEN y ELSE IF a = y THEN x ELSE a]),
+                           [op |-> "iswapaxes", a |-> s, x |-> x, y |-> y])
+Touch(s, o) == Update(s, T(s), [op |-> o, a |-> s])           \* isort_qdata / ipurge_zeros: no observable change
+Extend(s, x, extra) == Store(OpExtend(T(s), x, extra), [op |-> "extend", a |-> s, x |-> x, extra |-> extra])
+AddLeg(s, b, y, i, x) ==
+    LET lab == IF \E a \in 1..R(s) : T(s).labels[a] = <<"n">> THEN NoneLabel ELSE <<"n">> IN
+    Store(OpAddLeg(T(s), T(b).legs[y], i, x, lab), [op |-> "add_leg", a |-> s, b |-> b, y |-> y, i |-> i, x |-> x, label |-> lab])
 Norm2(s) == Observe([op |-> "norm2", a |-> s, value |-> <<OpNorm2(T(s)), 0>>])
 
 \* --- two phases: Choose* picks an operation and its arguments (cheap: only the preconditions are
 \* evaluated), Exec performs the pending operation (one tensor computation per step).  In simulation
 \* mode TLC therefore computes one result per step instead of one per enabled operation.
-CanChoose == pending = Nil /\ nops < MaxOps
+\* three phases per operation: PickClass (which kind of operation; uniform over kinds in simulation),
+\* Ch* (its arguments; only preconditions are evaluated), Exec (one tensor computation)
+CanChoose(c) == pending = Nil /\ nops < MaxOps /\ cls = c
 Choose(p) == /\ pending' = p
+             /\ cls' = "none"
              /\ UNCHANGED <<pool, used, shared, last, nops, hist>>
 U == used
 \* slots whose tensor entries may be shared with another slot (results of operations documented to return
 \* shallow copies).  In-place methods are not applied to them: what happens then is documented as unspecified.
 ShallowOps == {"gauge_total_charge", "add_trivial_leg", "sort_legcharge"}
 Free(s) == \A p \in shared : s \notin p
-ChConj == CanChoose /\ \E s \in U, o \in {"conj", "iconj", "complex_conj", "conj_nocc"} : (o = "iconj" => Free(s)) /\ Choose([op |-> o, a |-> s])
-ChTranspose == CanChoose /\ \E s \in U : \E p \in Perms(R(s)), o \in {"transpose", "itranspose"} : (o = "itranspose" => Free(s)) /\ Choose([op |-> o, a |-> s, perm |-> p])
-ChTensordot == CanChoose /\ \E a, b \in U : \E k \in 0..2 : k <= R(a) /\ k <= R(b) /\
+ChConj == CanChoose("Conj") /\ \E s \in U, o \in {"conj", "iconj", "complex_conj", "conj_nocc"} : (o = "iconj" => Free(s)) /\ Choose([op |-> o, a |-> s])
+ChTranspose == CanChoose("Transpose") /\ \E s \in U : \E p \in Perms(R(s)), o \in {"transpose", "itranspose"} : (o = "itranspose" => Free(s)) /\ Choose([op |-> o, a |-> s, perm |-> p])
+ChTensordot == CanChoose("Tensordot") /\ \E a, b \in U : \E k \in 0..2 : k <= R(a) /\ k <= R(b) /\
                   \E axa \in InjSeqs(R(a), k), axb \in InjSeqs(R(b), k) :
                       /\ (k = 2 => axa[1] < axa[2])
                       /\ CanTensordot(T(a), T(b), axa, axb)
                       /\ R(a) + R(b) - 2 * k >= 1 /\ R(a) + R(b) - 2 * k <= MaxRank
                       /\ Choose([op |-> "tensordot", a |-> a, b |-> b, axa |-> axa, axb |-> axb])
-ChInner == CanChoose /\ \E a, b \in U, dc \in BOOLEAN : CanInner(T(a), T(b), dc) /\ Choose([op |-> "inner", a |-> a, b |-> b, do_conj |-> dc])
-ChTrace == CanChoose /\ \E s \in U : \E x, y \in 1..R(s) : R(s) >= 3 /\ CanTrace(T(s), x, y) /\ Choose([op |-> "trace", a |-> s, x |-> x, y |-> y])
-ChAdd == CanChoose /\ \E a, b \in U, z \in Scalars, o \in {"add_scaled", "iadd_prefactor_other"} :
+ChInner == CanChoose("Inner") /\ \E a, b \in U, dc \in BOOLEAN : CanInner(T(a), T(b), dc) /\ Choose([op |-> "inner", a |-> a, b |-> b, do_conj |-> dc])
+ChTrace == CanChoose("Trace") /\ \E s \in U : \E x, y \in 1..R(s) : R(s) >= 3 /\ CanTrace(T(s), x, y) /\ Choose([op |-> "trace", a |-> s, x |-> x, y |-> y])
+ChAdd == CanChoose("Add") /\ \E a, b \in U, z \in Scalars, o \in {"add_scaled", "iadd_prefactor_other"} :
             CanAdd(T(a), T(b)) /\ (o = "iadd_prefactor_other" => Free(a)) /\ Choose([op |-> o, a |-> a, b |-> b, z |-> z])
-ChScale == CanChoose /\ \E s \in U, z \in Scalars \cup {<<0, 0>>}, o \in {"scale", "iscale_prefactor"} : (o = "iscale_prefactor" => Free(s)) /\ Choose([op |-> o, a |-> s, z |-> z])
-ChCombine == CanChoose /\ \E s \in U : \E k \in 1..3 : k <= R(s) /\ \E g \in InjSeqs(R(s), k), flip \in BOOLEAN :
+ChScale == CanChoose("Scale") /\ \E s \in U, z \in Scalars \cup {<<0, 0>>}, o \in {"scale", "iscale_prefactor"} : (o = "iscale_prefactor" => Free(s)) /\ Choose([op |-> o, a |-> s, z |-> z])
+ChCombine == CanChoose("Combine") /\ \E s \in U : \E k \in 1..3 : k <= R(s) /\ \E g \in InjSeqs(R(s), k), flip \in BOOLEAN :
                 Choose([op |-> "combine_legs", a |-> s, group |-> g, flip |-> flip])
-ChSplit == CanChoose /\ \E s \in U : \E x \in 1..R(s) : CanSplit(T(s), x) /\ Choose([op |-> "split_legs", a |-> s, x |-> x])
-ChTakeSlice == CanChoose /\ \E s \in U : \E x \in 1..R(s) : R(s) >= 2 /\ \E i \in 0..(IndLen(T(s).legs[x]) - 1) :
+ChSplit == CanChoose("Split") /\ \E s \in U : \E x \in 1..R(s) : CanSplit(T(s), x) /\ Choose([op |-> "split_legs", a |-> s, x |-> x])
+ChTakeSlice == CanChoose("TakeSlice") /\ \E s \in U : \E x \in 1..R(s) : R(s) >= 2 /\ \E i \in 0..(IndLen(T(s).legs[x]) - 1) :
                   Choose([op |-> "take_slice", a |-> s, i |-> i, x |-> x])
 \* masks: every proper subset for short legs, a few patterns (drop one index, every second index, nothing) for long ones
 Masks(n) == IF n <= 4 THEN (SUBSET (0..(n - 1))) \ {0..(n - 1)}
             ELSE {(0..(n - 1)) \ {i} : i \in 0..(n - 1)} \cup {{i \in 0..(n - 1) : i % 2 = 0}, {i \in 0..(n - 1) : i % 3 = 1}, {}}
-ChProject == CanChoose /\ \E s \in U : \E x \in 1..R(s) : \E K \in Masks(IndLen(T(s).legs[x])) :
+ChProject == CanChoose("Project") /\ \E s \in U : \E x \in 1..R(s) : \E K \in Masks(IndLen(T(s).legs[x])) :
                 Free(s) /\ Choose([op |-> "iproject", a |-> s, keep |-> SortedSeqOf(K), x |-> x])
-ChPermute == CanChoose /\ \E s \in U : \E x \in 1..R(s) : LET n == IndLen(T(s).legs[x]) IN
+ChPermute == CanChoose("Permute") /\ \E s \in U : \E x \in 1..R(s) : LET n == IndLen(T(s).legs[x]) IN
                 n >= 2 /\ \E p \in {[i \in 1..n |-> n - i], [i \in 1..n |-> i % n], [i \in 1..n |-> IF i = 1 THEN 1 ELSE IF i = 2 THEN 0 ELSE i - 1]} :
                     Choose([op |-> "permute", a |-> s, perm |-> p, x |-> x])
-ChSortLeg == CanChoose /\ \E s \in U : \E x \in 1..R(s) : \E so, bu \in BOOLEAN : (so \/ bu) /\ Choose([op |-> "sort_legcharge", a |-> s, x |-> x, sort |-> so, bunch |-> bu])
-ChScaleAxis == CanChoose /\ \E s \in U : \E x \in 1..R(s), c \in BOOLEAN : Choose([op |-> "scale_axis", a |-> s, x |-> x, cplx |-> c])
-ChConcat == CanChoose /\ \E a, b \in U : \E x \in 1..R(a) : CanConcat(T(a), T(b), x) /\ Choose([op |-> "concatenate", a |-> a, b |-> b, x |-> x])
-ChTrivialLeg == CanChoose /\ \E s \in U : \E x \in 1..(R(s) + 1), qc \in {1, -1} : R(s) < MaxRank /\ Choose([op |-> "add_trivial_leg", a |-> s, x |-> x, qconj |-> qc])
-ChSqueeze == CanChoose /\ \E s \in U : \E x \in 1..R(s) : CanSqueeze(T(s), x) /\ Choose([op |-> "squeeze", a |-> s, x |-> x])
-ChGauge == CanChoose /\ \E s \in U : \E x \in 1..R(s), flip \in BOOLEAN : \E nq \in {QZero, MakeValid([k \in 1..QN |-> 1])} :
+ChSortLeg == CanChoose("SortLeg") /\ \E s \in U : \E x \in 1..R(s) : \E so, bu \in BOOLEAN : (so \/ bu) /\ Choose([op |-> "sort_legcharge", a |-> s, x |-> x, sort |-> so, bunch |-> bu])
+ChScaleAxis == CanChoose("ScaleAxis") /\ \E s \in U : \E x \in 1..R(s), c \in BOOLEAN : Choose([op |-> "scale_axis", a |-> s, x |-> x, cplx |-> c])
+ChConcat == CanChoose("Concat") /\ \E a, b \in U : \E x \in 1..R(a) : CanConcat(T(a), T(b), x) /\ Choose([op |-> "concatenate", a |-> a, b |-> b, x |-> x])
+ChTrivialLeg == CanChoose("TrivialLeg") /\ \E s \in U : \E x \in 1..(R(s) + 1), qc \in {1, -1} : R(s) < MaxRank /\ Choose([op |-> "add_trivial_leg", a |-> s, x |-> x, qconj |-> qc])
+ChSqueeze == CanChoose("Squeeze") /\ \E s \in U : \E x \in 1..R(s) : CanSqueeze(T(s), x) /\ Choose([op |-> "squeeze", a |-> s, x |-> x])
+ChGauge == CanChoose("Gauge") /\ \E s \in U : \E x \in 1..R(s), flip \in BOOLEAN : \E nq \in {QZero, MakeValid([k \in 1..QN |-> 1])} :
               Choose([op |-> "gauge_total_charge", a |-> s, x |-> x, newq |-> nq, flip |-> flip])
-ChSetEntry == CanChoose /\ \E s \in U : \E idx \in Indices(T(s).val.shape) : \E z \in {<<7, 0>>, <<0, 0>>, <<3, -2>>} :
+ChSetEntry == CanChoose("SetEntry") /\ \E s \in U : \E idx \in Indices(T(s).val.shape) : \E z \in {<<7, 0>>, <<0, 0>>, <<3, -2>>} :
                  Free(s) /\ CanSetEntry(T(s), idx) /\ Choose([op |-> "setitem", a |-> s, idx |-> idx, z |-> z])
-ChNorm == CanChoose /\ \E s \in U : Choose([op |-> "norm2", a |-> s])
+ChNorm == CanChoose("Norm") /\ \E s \in U : Choose([op |-> "norm2", a |-> s])
+ChCombine2 == CanChoose("Combine2") /\ \E s \in U : R(s) >= 3 /\ \E g \in InjSeqs(R(s), 3), f1, f2 \in BOOLEAN :
+                 \/ Choose([op |-> "combine_legs2", a |-> s, g1 |-> <<g[1], g[2]>>, g2 |-> <<g[3]>>, f1 |-> f1, f2 |-> f2])
+                 \/ Choose([op |-> "combine_legs2", a |-> s, g1 |-> <<g[1]>>, g2 |-> <<g[2], g[3]>>, f1 |-> f1, f2 |-> f2])
+\* index specs per axis: everything, one int, or one of a few selections (ascending = mask/slice, reversed slice, unsorted)
+AxisSpecs(n) == {[k |-> "all"]} \cup {[k |-> "int", i |-> i] : i \in {0, n - 1}}
+                \cup (IF n >= 2 THEN {[k |-> "sel", sel |-> [j \in 1..(n - 1) |-> j]],                   \* 1:
+                                       [k |-> "sel", sel |-> [j \in 1..(n - 1) |-> n - 1 - j]],           \* -2::-1
+                                       [k |-> "sel", sel |-> [j \in 1..((n + 1) \div 2) |-> 2 * (j - 1)]], \* ::2
+                                       [k |-> "sel", sel |-> [j \in 1..n |-> (j + (n \div 2)) % n]]}       \* rotated index array
+                      ELSE {})
+IndexSpecs(t) == {sp \in [1..TRank(t) -> UNION {AxisSpecs(IndLen(t.legs[a])) : a \in 1..TRank(t)}] :
+                     /\ \A a \in 1..TRank(t) : sp[a] \in AxisSpecs(IndLen(t.legs[a]))
+                     /\ \E a \in 1..TRank(t) : sp[a].k # "int"
+                     /\ \E a \in 1..TRank(t) : sp[a].k # "all"
+                     /\ Cardinality({a \in 1..TRank(t) : sp[a].k = "sel"}) <= 1
+                     /\ Cardinality({a \in 1..TRank(t) : sp[a].k = "int"}) <= 1}
+ChGetItem == CanChoose("GetItem") /\ \E s \in U : R(s) <= 3 /\ \E sp \in IndexSpecs(T(s)) : Choose([op |-> "getitem", a |-> s, spec |-> sp])
+ChScaleItems == CanChoose("ScaleItems") /\ \E s \in U : R(s) <= 3 /\ Free(s) /\ \E sp \in IndexSpecs(T(s)), z \in {<<2, 0>>, <<0, 1>>} :
+                   Choose([op |-> "setitem_scaled", a |-> s, spec |-> sp, z |-> z])
+ChSwapAxes == CanChoose("SwapAxes") /\ \E s \in U : Free(s) /\ \E x, y \in 1..R(s) : x < y /\ Choose([op |-> "iswapaxes", a |-> s, x |-> x, y |-> y])
+ChTouch == CanChoose("Touch") /\ \E s \in U, o \in {"isort_qdata", "ipurge_zeros"} : Free(s) /\ Choose([op |-> o, a |-> s])
+ChExtend == CanChoose("Extend") /\ \E s, b \in U : \E x \in 1..R(s), y \in 1..R(b) :
+               /\ T(b).legs[y].qconj = T(s).legs[x].qconj /\ ~IsPipe(T(b).legs[y]) /\ ~IsPipe(T(s).legs[x])
+               /\ Choose([op |-> "extend", a |-> s, x |-> x, extra |-> T(b).legs[y]])
+ChAddLeg == CanChoose("AddLeg") /\ \E s, b \in U : R(s) < MaxRank /\ \E y \in 1..R(b), x \in 1..R(s) : \E i \in 0..(IndLen(T(b).legs[y]) - 1) :
+               ~IsPipe(T(b).legs[y]) /\ Choose([op |-> "add_leg", a |-> s, b |-> b, y |-> y, i |-> i, x |-> x])
+
+Classes == {"Conj", "Transpose", "Tensordot", "Inner", "Trace", "Add", "Scale", "Combine", "Split", "TakeSlice", "Project", "Permute", "SortLeg", "ScaleAxis", "Concat", "TrivialLeg", "Squeeze", "Gauge", "SetEntry", "Norm", "Combine2", "GetItem", "ScaleItems", "SwapAxes", "Touch", "Extend", "AddLeg"}
+PickClass == /\ cls = "none" /\ pending = Nil /\ nops < MaxOps
+             /\ \E c \in Classes : cls' = c
+             /\ UNCHANGED <<pool, used, shared, pending, last, nops, hist>>
+\* a class without any enabled instance (or simply a change of mind) is abandoned
+Abandon == /\ cls # "none" /\ pending = Nil
+           /\ cls' = "none"
+           /\ UNCHANGED <<pool, used, shared, pending, last, nops, hist>>
 
 P == pending
 Perform ==
@@ -190,9 +244,17 @@ Perform ==
       [] P.op = "gauge_total_charge" -> Gauge(P.a, P.x, P.newq, P.flip)
       [] P.op = "setitem" -> SetEntry(P.a, P.idx, P.z)
       [] P.op = "norm2" -> Norm2(P.a)
+      [] P.op = "combine_legs2" -> Combine2(P.a, P.g1, P.g2, P.f1, P.f2)
+      [] P.op = "getitem" -> GetItem(P.a, P.spec)
+      [] P.op = "setitem_scaled" -> ScaleItems(P.a, P.spec, P.z)
+      [] P.op = "iswapaxes" -> SwapAxes(P.a, P.x, P.y)
+      [] P.op \in {"isort_qdata", "ipurge_zeros"} -> Touch(P.a, P.op)
+      [] P.op = "extend" -> Extend(P.a, P.x, P.extra)
+      [] P.op = "add_leg" -> AddLeg(P.a, P.b, P.y, P.i, P.x)
 Exec == /\ pending # Nil
         /\ Perform
         /\ pending' = Nil
+        /\ cls' = cls
         /\ shared' = IF last'.out = 0 \/ last'.inplace THEN shared
                      ELSE LET o == last'.out
                               base == {p \in shared : o \notin p}
@@ -205,7 +267,8 @@ Exec == /\ pending # Nil
 
 Next == \/ ChConj \/ ChTranspose \/ ChTensordot \/ ChInner \/ ChTrace \/ ChAdd \/ ChScale \/ ChCombine \/ ChSplit
         \/ ChTakeSlice \/ ChProject \/ ChPermute \/ ChSortLeg \/ ChScaleAxis \/ ChConcat \/ ChTrivialLeg \/ ChSqueeze
-        \/ ChGauge \/ ChSetEntry \/ ChNorm \/ Exec
+        \/ ChGauge \/ ChSetEntry \/ ChNorm \/ ChCombine2 \/ ChGetItem \/ ChScaleItems \/ ChSwapAxes \/ ChTouch
+        \/ ChExtend \/ ChAddLeg \/ PickClass \/ Abandon \/ Exec
 Spec == Init /\ [][Next]_vars
 -----------------------------------------------------------------------------
 \* C02 (design level): every tensor in the pool obeys the charge rule and is well formed
